@@ -245,3 +245,8 @@ package types
 // the provisional version counter (C07): behind the interface it is ghost state of its own
 //@ func (AccountAccessor).GetNextVersion   trusted
 //@   modifies gh("nextVersion", recv)
+
+// a 65-byte signature as an array value: a copy of the bytes (assumed; the engine does not model large array copies)
+//@ func BytesToSignData   trusted
+//@   modifies nothing
+//@   ensures len(bytes) == 65 ==> content(result) == content(bytes)
